@@ -251,7 +251,7 @@ class Ctx:
             raise Inconclusive("harness failed rc=%d: %s\n%s" % (p.returncode, args, (p.stderr or p.stdout)[-3000:]))
         return p
 
-    def trace_validate(self, module, cfg, trace_path, timeout=600, workers=None, env=None):
+    def trace_validate(self, module, cfg, trace_path, timeout=600, workers=None, env=None, heap=None):
         """Stateless/stateful trace validation: TLC evaluates the trace spec on events recorded
         from the real code; rejected events are reported through VERIF_REJECTS (the TLC run itself
         must be clean, anything else is a broken trace spec -> exit 2)."""
@@ -264,7 +264,7 @@ class Ctx:
         e = {"VERIF_TRACE": trace_path, "VERIF_REJECTS": rej}
         if env:
             e.update(env)
-        res = self.tlc(module, cfg, env=e, timeout=timeout, workers=workers)
+        res = self.tlc(module, cfg, env=e, timeout=timeout, workers=workers, heap=heap)
         if not res.clean:
             raise Inconclusive("trace specification %s did not run cleanly:\n%s" % (module, res.tail(60)))
         rejects = read_cases(rej)
